@@ -740,6 +740,79 @@ M("o3-mux-depends-on-switch", "C04", "fire O3", "src/circuit.rs",
         }
         let x0_xor_x1 = self.push_xor(x0, x1);""", "with de-duplication off a different request sequence is made")
 
+M("o5-and-one-returns-self", "C04", "fire O5", "src/circuit.rs",
+  """        } else if x == 1 {
+            return Some(y);
+        } else if y == 1 || x == y {
+            return Some(x);""",
+  """        } else if x == 1 {
+            return Some(x);
+        } else if y == 1 || x == y {
+            return Some(x);""", "1 & y folds to 1")
+M("o5-xor-self-is-one", "C04", "fire O5", "src/circuit.rs",
+  """        } else if x == y {
+            return Some(0);
+        } else if let Some(&x_negated) = self.negated.get(&x) {
+            if x_negated == y {
+                return Some(1);""",
+  """        } else if x == y {
+            return Some(1);
+        } else if let Some(&x_negated) = self.negated.get(&x) {
+            if x_negated == y {
+                return Some(1);""", "x ^ x folds to 1")
+M("o5-and-negated-is-one", "C04", "fire O5", "src/circuit.rs",
+  """            if y_negated == x {
+                return Some(0);
+            }
+        }
+        // Sub-expression sharing:
+        if let Some(&wire) = self.get_cached(&BuilderGate::And(x, y)) {""",
+  """            if y_negated == x {
+                return Some(1);
+            }
+        }
+        // Sub-expression sharing:
+        if let Some(&wire) = self.get_cached(&BuilderGate::And(x, y)) {""", "x & !x folds to 1")
+M("o5-quiet-match-form", "C04", "quiet", "src/circuit.rs",
+  """        if x == 0 {
+            return Some(y);
+        } else if y == 0 {
+            return Some(x);
+        } else if x == y {
+            return Some(0);
+        } else if let Some(&x_negated) = self.negated.get(&x) {
+            if x_negated == y {
+                return Some(1);""",
+  """        if y == 0 {
+            return Some(x);
+        }
+        if x == 0 {
+            return Some(y);
+        }
+        if x == y {
+            return Some(0);
+        } else if let Some(&x_negated) = self.negated.get(&x) {
+            if x_negated == y {
+                return Some(1);""", "behaviour-preserving: folding cases reordered")
+M("o6-negated-wrong-operand", "C04", "fire O6", "src/circuit.rs",
+  """            if y == 1 {
+                self.negated.insert(x, gate_index);
+                self.negated.insert(gate_index, x);
+            }""",
+  """            if y == 1 {
+                self.negated.insert(y, gate_index);
+                self.negated.insert(gate_index, x);
+            }""", "the constant-true wire is recorded as negated by the new gate")
+M("o6-negated-unconditional", "C04", "fire O6", "src/circuit.rs",
+  """            if x == 1 {
+                self.negated.insert(y, gate_index);
+                self.negated.insert(gate_index, y);
+            }""",
+  """            self.negated.insert(y, gate_index);
+            if x == 1 {
+                self.negated.insert(gate_index, y);
+            }""", "every XOR gate is recorded as a negation of its second operand")
+
 # ---------------------------------------------------------------- C10
 M("r1-pin-first", "C10", "fire R1", "src/register_circuit.rs",
   """    let mut last_used = HashMap::with_capacity(circ.wires_len());
